@@ -34,12 +34,14 @@ type Case struct {
 	State     string `json:"state"` // cold | fresh | stale304 | stale200
 	// OriginSlowMs > 0: the origin pauses in the middle of its body, so the transfer outlasts the 80 ms
 	// lifetime and the entry the flight stores is already stale when the followers read it
-	OriginSlowMs int      `json:"origin_slow_ms,omitempty"`
-	Outcome      string   `json:"outcome"` // cacheable | no-store | 404 | 500
-	BodyLen      int      `json:"body_len"`
-	Cancels      []Cancel `json:"cancels"`
-	Slow         int      `json:"slow"` // index of a slow reader, -1 none
-	Hook         string   `json:"hook"` // "" | delete | overwrite : action at the hand-over point of the first request to get there
+	OriginSlowMs int `json:"origin_slow_ms,omitempty"`
+	// Late more clients ask for the resource after the planned hang-ups happened and before the origin answers
+	Late    int      `json:"late,omitempty"`
+	Outcome string   `json:"outcome"` // cacheable | no-store | 404 | 500
+	BodyLen int      `json:"body_len"`
+	Cancels []Cancel `json:"cancels"`
+	Slow    int      `json:"slow"` // index of a slow reader, -1 none
+	Hook    string   `json:"hook"` // "" | delete | overwrite : action at the hand-over point of the first request to get there
 }
 
 type result struct {
@@ -98,7 +100,10 @@ var sub = ev.Register("coalescing",
 		coalBase := metrics.Global.Requests.CoalescedRequests.Get()
 		originBase := org.Len()
 		// ---- the gate: hold the origin until all N requests are inside the proxy
-		inFlight := make(chan struct{})
+		inFlight := make(chan struct{}) // all N requests are inside the proxy: clients act (hang up while the answer is held)
+		release := make(chan struct{})  // the origin may answer
+		var gatedDone sync.WaitGroup    // hang-ups planned for the time the answer is held
+		lateStart, lateGo := make(chan struct{}, 1), make(chan struct{})
 		var once sync.Once
 		var leaderMu sync.Mutex
 		leaderID := ""
@@ -112,10 +117,9 @@ var sub = ev.Register("coalescing",
 			}
 			leaderMu.Unlock()
 			select {
-			case <-inFlight:
-			case <-time.After(2 * time.Second):
+			case <-release:
+			case <-time.After(4 * time.Second):
 			}
-			time.Sleep(3 * time.Millisecond) // give "gated" cancellations time to happen while the answer is held
 		}
 		go func() {
 			// all N requests are inside the proxy (or never will be): release clients and origin together
@@ -125,6 +129,19 @@ var sub = ev.Register("coalescing",
 			}
 			time.Sleep(2 * time.Millisecond)
 			once.Do(func() { close(inFlight) })
+			// the hang-ups happen while the answer is held ...
+			waitOrTimeout(&gatedDone, time.Second)
+			time.Sleep(3 * time.Millisecond)
+			// ... and then late comers ask for the same resource, still before the origin answers
+			if c.Late > 0 {
+				lateStart <- struct{}{}
+				d2 := time.Now().Add(time.Second)
+				for metrics.Global.Requests.HTTPProxyRequests.Get() < base+int64(c.N+c.Late) && time.Now().Before(d2) {
+					time.Sleep(200 * time.Microsecond)
+				}
+				time.Sleep(2 * time.Millisecond)
+			}
+			close(release)
 		}()
 		hookUsed := false
 		if c.Hook != "" {
@@ -156,13 +173,38 @@ var sub = ev.Register("coalescing",
 				cancelOf[cn.Client] = cn.When
 			}
 		}
-		results := make([]result, c.N)
+		results := make([]result, c.N+c.Late)
 		var wg sync.WaitGroup
+		gatedDone.Add(c.N)
+		// late comers: plain complete GETs started after the hang-ups, while the origin is still holding its answer
+		for j := 0; j < c.Late; j++ {
+			wg.Add(1)
+			go func(i, j int) {
+				defer wg.Done()
+				if j == 0 {
+					select {
+					case <-lateStart:
+					case <-time.After(5 * time.Second):
+					}
+					close(lateGo)
+				}
+				<-lateGo
+				resp, err := env.Via(c.Transport, px.Req{Method: "GET", Host: org.Addr(), Target: "/c", ReqID: fmt.Sprintf("late%d", i)})
+				if err != nil {
+					results[i].err = err
+					return
+				}
+				results[i] = result{status: resp.Status, body: resp.Body, err: resp.ReadErr}
+			}(c.N+j, j)
+		}
 		for i := 0; i < c.N; i++ {
 			wg.Add(1)
 			go func(i int) {
 				defer wg.Done()
 				id := fmt.Sprintf("cl%d", i)
+				var g1 sync.Once
+				gatedOnce := func() { g1.Do(gatedDone.Done) }
+				defer gatedOnce()
 				p, err := env.Start(c.Transport, px.Req{Method: "GET", Host: org.Addr(), Target: "/c", ReqID: id})
 				if err != nil {
 					results[i].err = err
@@ -181,8 +223,10 @@ var sub = ev.Register("coalescing",
 				if when == "gated" {
 					p.Abort()
 					results[i].cancelled = true
+					gatedOnce()
 					return
 				}
+				gatedOnce()
 				st, err := p.Header()
 				if err != nil {
 					results[i].err = err
@@ -253,6 +297,7 @@ var sub = ev.Register("coalescing",
 		o.Classf("cancels:%d", nCancel)
 		o.Classf("leader-cancelled:%v", leaderCancelled)
 		o.Class("hook:" + c.Hook)
+		o.Classf("late-comers:%v", c.Late > 0)
 		o.Classf("transfer-outlasts-lifetime:%v", c.OriginSlowMs >= 120)
 		o.Classf("coalesced:%v", coalesced > 0)
 		o.NonTrivial = coalesced > 0
@@ -340,6 +385,15 @@ var sub = ev.Register("coalescing",
 		return nil
 	})
 
+func waitOrTimeout(wg *sync.WaitGroup, d time.Duration) {
+	done := make(chan struct{})
+	go func() { wg.Wait(); close(done) }()
+	select {
+	case <-done:
+	case <-time.After(d):
+	}
+}
+
 func drawCase(t *rapid.T) Case {
 	c := Case{
 		Backend:   rapid.SampledFrom([]string{"memory", "file"}).Draw(t, "backend"),
@@ -356,6 +410,9 @@ func drawCase(t *rapid.T) Case {
 	}
 	if c.Outcome != "cacheable" {
 		c.State = "cold"
+	}
+	if rapid.IntRange(0, 2).Draw(t, "late") == 0 {
+		c.Late = rapid.IntRange(1, 3).Draw(t, "late-n")
 	}
 	if c.State != "fresh" && rapid.IntRange(0, 3).Draw(t, "slow-origin") == 0 {
 		c.OriginSlowMs = rapid.SampledFrom([]int{30, 120, 250}).Draw(t, "origin-slow-ms")
